@@ -837,3 +837,102 @@ def make_fill(entry):
 
 for _e in FILL_TABLE:
     make_fill(_e)
+
+# ------------------------------------------------------------------------------------------------ bounded: foreign blocks whose names extend the names of read blocks
+# The block look-up itself (SLHAea::Coll::find, key_matches) lives in the third-party header src/slhaea.h and enters the contracts above as the assumption "find(name) returns
+# the blocks whose name equals name case-insensitively" (A-SLHAEA).  That assumption is exercised here on the REAL program: "blocks it does not document are ignored".
+FOREIGN_SUFFIXES = ('IN', 'X', 'OLD', 'ES', '2', '_')
+
+def _foreign_variants():
+    import os, re
+    from gm2v.world import REPO
+    for fname, opt in (('example.slha', '--slha-input-file=-'), ('example.gm2', '--gm2calc-input-file=-'), ('example.thdm', '--thdm-input-file=-')):
+        text = open(os.path.join(REPO, 'input', fname)).read()
+        lines = text.split('\n')
+        heads = [i for i, l in enumerate(lines) if l.split('#')[0].strip().lower().startswith('block')]
+        for hi, h in enumerate(heads):
+            end = heads[hi + 1] if hi + 1 < len(heads) else len(lines)
+            m = re.match(r'(\s*[Bb][Ll][Oo][Cc][Kk]\s+)(\S+)(.*)', lines[h])
+            name = m.group(2)
+            for suf in FOREIGN_SUFFIXES:
+                # a copy of the block under a foreign name, every number replaced by a different one (the same keys: "later overrides earlier" would take it)
+                body = []
+                for l in lines[h + 1:end]:
+                    code, _, com = l.partition('#')
+                    toks = code.split()
+                    if not toks:
+                        continue
+                    toks[-1] = '7.7e1' if re.search(r'[.eE]', toks[-1]) else toks[-1]
+                    body.append('   ' + '  '.join(toks))
+                blk = [m.group(1) + name + suf + m.group(3).split('#')[0]] + body
+                yield fname, opt, text, '%s%s appended' % (name, suf), text.rstrip('\n') + '\n' + '\n'.join(blk) + '\n'
+                if suf in ('IN', 'X'):
+                    yield fname, opt, text, '%s%s in front' % (name, suf), '\n'.join(blk) + '\n' + text
+                    # a foreign block with text entries must not make the file unreadable either
+                    yield fname, opt, text, '%s%s with text entries' % (name, suf), text.rstrip('\n') + '\n' + blk[0] + '\n   1   none   # text\n'
+
+def _written_part(out):
+    lines = out.split('\n')
+    if not any(l.strip().lower().startswith('block') for l in lines):
+        return lines
+    keep, on = [], False
+    for l in lines:
+        if l.strip().lower().startswith('block'):
+            on = l.split()[1].lower() in ('gm2calcoutput', 'spinfo')
+        if on:
+            keep.append(l)
+    return keep
+
+def _run_foreign(exe, opt, text, new):
+    import subprocess
+    r0 = subprocess.run([exe, opt], input=text, capture_output=True, text=True, timeout=120)
+    r = subprocess.run([exe, opt], input=new, capture_output=True, text=True, timeout=120)
+    return r0, r
+
+def replay_foreign(model, wd):
+    """re-run the real program on the failing extended input (written next to the replay file) and on the unextended one"""
+    from gm2v import native
+    import os
+    if not model or 'variant' not in model:
+        return None, 'no failing variant recorded'
+    exe = native.build_gm2calc()
+    for fname, opt, text, what, new in _foreign_variants():
+        if fname == model['file'] and what == model['variant']:
+            p = os.path.join(wd, 'foreign_block_input.txt')
+            open(p, 'w').write(new)
+            r0, r = _run_foreign(exe, opt, text, new)
+            got, exp = _written_part(r.stdout), _written_part(r0.stdout)
+            diff = [(x, y) for x, y in zip(got, exp) if x != y][:2]
+            return (r.returncode != r0.returncode or got != exp), 'gm2calc.x %s < %s: exit %d (unextended input: %d); first differing output lines (extended, unextended): %s' % (
+                opt, p, r.returncode, r0.returncode, diff)
+    return None, 'variant not generated any more'
+
+@obligation('C13.program.foreign_blocks', fns=[('src/gm2calc.cpp', 'main')], backend='bounded', replay=replay_foreign)
+def _(ctx):
+    """BOUNDED (not a proof): the real program on the three shipped example inputs, each extended by one foreign block whose name has the name of a block GM2Calc reads as a
+    proper prefix (<NAME>IN, <NAME>X, <NAME>OLD, ...; appended, in front, with text entries): exit status and output are those of the unextended input"""
+    from gm2v import native
+    import subprocess
+    exe = native.build_gm2calc()
+    base = {}
+    n, bad = 0, []
+    for fname, opt, text, what, new in _foreign_variants():
+        if fname not in base:
+            r0 = subprocess.run([exe, opt], input=text, capture_output=True, text=True, timeout=120)
+            base[fname] = (r0.returncode, r0.stdout)
+        r = subprocess.run([exe, opt], input=new, capture_output=True, text=True, timeout=120)
+        n += 1
+        want = base[fname]
+        # SLHA output echoes the input document: compare the blocks the program writes (GM2CalcOutput, SPINFO); other output formats are compared as a whole
+        got, exp = _written_part(r.stdout), _written_part(want[1])
+        if r.returncode != want[0] or got != exp:
+            diff = [(x, y) for x, y in zip(got, exp) if x != y][:1]
+            bad.append(('%s + %s: exit %d (want %d) %s %s' % (fname, what, r.returncode, want[0], diff or (len(got), len(exp)), r.stderr.strip()[:100]), fname, what))
+    if n < 60:
+        ctx.record('', ERROR, 'bounded', 0, 'only %d variants generated' % n)
+        return
+    for b in bad[:5]:
+        ctx.record(b[0].split(':')[0].replace(' ', '_'), FAILED, 'bounded', 0, 'BOUNDED: ' + b[0], solver='native execution of the real program', kind='bounded',
+                   model={'file': b[1], 'variant': b[2]})
+    ctx.record('', PROVED, 'bounded', 0, 'BOUNDED: %d inputs with a foreign block run, %d with a different result%s' % (n, len(bad), ' (separate goals)' if bad else ''),
+               solver='native execution of the real program', kind='bounded')
